@@ -73,6 +73,8 @@ static int cheap(ZSTD_CCtx* c, int isStatic) {
 static int buffered_req(ZSTD_CCtx* c) { return cgetv(c, ZSTD_c_stableInBuffer) == 0 && cgetv(c, ZSTD_c_stableOutBuffer) == 0; }
 static int buffered_applied(ZSTD_CCtx* c) { return c->appliedParams.inBufferMode == ZSTD_bm_buffered && c->appliedParams.outBufferMode == ZSTD_bm_buffered; }
 static int cmid(ZSTD_CCtx* c) { return c->streamStage != zcss_init; }
+/* a pledge is pending for the next frame (the scripts never pledge: only a stale one can be there) */
+static int stale_pledge(ZSTD_CCtx* c) { return !cmid(c) && c->pledgedSrcSizePlusOne != 0; }
 static int cdictcode(ZSTD_CCtx* c) {
     if (c->localDict.dict) return c->localDict.cdict ? 2 : 1;
     if (c->cdict) return 3;
@@ -95,7 +97,7 @@ int main(void) {
     if (!cws || !dws || !outb || !sout[0] || !sout[1]) die("malloc");
     for (i = 0; i < sizeof(srcA); i++) srcA[i] = (unsigned char)("parameter interface "[i % 20]);
     for (i = 0; i < sizeof(srcB); i++) srcB[i] = (unsigned char)((i * 2654435761u) >> 24) & 0x3f;
-    memset(garbage, 0xFF, sizeof(garbage));
+    memset(garbage, 0x08, sizeof(garbage));   /* refused in both formats: wrong magic / reserved header bit */
     {   /* a real dictionary (with a dictID) trained on synthetic samples */
         size_t const ns = 400, ss = 120; size_t* sizes = malloc(ns * sizeof(size_t)); unsigned char* smp = malloc(ns * ss); size_t s, j; unsigned x = 12345;
         for (s = 0; s < ns; s++) { sizes[s] = ss; for (j = 0; j < ss; j++) { x = x * 1103515245u + 12345u;
@@ -140,12 +142,12 @@ int main(void) {
             else if (!strcmp(op, "cget")) { int v = 0; size_t const r = ZSTD_CCtx_getParameter(c, (ZSTD_cParameter)b, &v); printf("%s %d\n", cls(r), ZSTD_isError(r) ? 0 : v); }
             else if (!strcmp(op, "creset")) printf("%s\n", cls(ZSTD_CCtx_reset(c, (ZSTD_ResetDirective)b)));
             else if (!strcmp(op, "cbegin")) {
-                if (!cheap(c, o) || (cmid(c) ? !buffered_applied(c) : !buffered_req(c))) printf("skip\n");
+                if (!cheap(c, o) || stale_pledge(c) || (cmid(c) ? !buffered_applied(c) : !buffered_req(c))) printf("skip\n");
                 else { ZSTD_inBuffer in = { srcA, sizeof(srcA), 0 }; ZSTD_outBuffer out = { sout[o], outCap, soutPos[o] };
                     size_t const r = ZSTD_compressStream2(c, &out, &in, ZSTD_e_continue); soutPos[o] = out.pos;
                     printf("%s\n", ZSTD_isError(r) ? "err" : (in.pos == in.size ? "ok" : "err partial")); } }
             else if (!strcmp(op, "cend")) {
-                if (!cheap(c, o) || (cmid(c) ? !buffered_applied(c) : !buffered_req(c))) printf("skip\n");
+                if (!cheap(c, o) || stale_pledge(c) || (cmid(c) ? !buffered_applied(c) : !buffered_req(c))) printf("skip\n");
                 else { int const known = !cmid(c); ZSTD_inBuffer in = { srcA, 0, 0 }; ZSTD_outBuffer out = { sout[o], outCap, soutPos[o] };
                     size_t const r = ZSTD_compressStream2(c, &out, &in, ZSTD_e_end); (void)known;
                     if (ZSTD_isError(r) || r != 0) printf("err %s\n", ZSTD_isError(r) ? ZSTD_getErrorName(r) : "unfinished");
@@ -162,6 +164,16 @@ int main(void) {
                     else { ZSTD_frameHeader h; int const magicless = !(r >= 4 && MEM_readLE32(outb) == ZSTD_MAGICNUMBER);
                         if (ZSTD_getFrameHeader_advanced(&h, outb, r, magicless ? ZSTD_f_zstd1_magicless : ZSTD_f_zstd1) != 0) printf("err hdr\n");
                         else printf("ok %d %d %d %d %llu\n", (int)h.checksumFlag, h.frameContentSize != ZSTD_CONTENTSIZE_UNKNOWN, h.dictID != 0, magicless, (unsigned long long)h.windowSize); } } }
+            else if (!strcmp(op, "cpledge")) {   /* direct check: a one-shot call must not pledge a size for the next streamed frame */
+                size_t r = b == 0 ? ZSTD_compressCCtx(c, outb, outCap, srcB, 300, 1)
+                         : b == 1 ? ZSTD_compress_usingDict(c, outb, outCap, srcB, 300, dictBuf, dictSize, 1)
+                                  : ZSTD_compress_usingCDict(c, outb, outCap, srcB, 300, cdict);
+                if (ZSTD_isError(r)) printf("err oneshot %s\n", ZSTD_getErrorName(r));
+                else { ZSTD_inBuffer in = { srcA, sizeof(srcA), 0 }; ZSTD_outBuffer out = { outb, outCap, 0 }; ZSTD_inBuffer in2 = { srcA, 0, 0 };
+                    r = ZSTD_compressStream2(c, &out, &in, ZSTD_e_continue);
+                    if (!ZSTD_isError(r)) r = ZSTD_compressStream2(c, &out, &in2, ZSTD_e_end);
+                    if (ZSTD_isError(r)) printf("err stream %s\n", ZSTD_getErrorName(r)); else print_hdr("ok", outb, out.pos); }
+                ZSTD_CCtx_reset(c, ZSTD_reset_session_only); }
             else if (!strcmp(op, "cfail")) {
                 if (!cheap(c, o)) printf("skip\n");
                 else { size_t const r = ZSTD_compress2(c, outb, 1, srcB, 300); soutPos[o] = 0; printf("%s\n", ZSTD_isError(r) ? "err" : "ok"); } }
